@@ -6,6 +6,7 @@ import (
 	"encoding/binary"
 	"encoding/json"
 	"net/http"
+	"sync/atomic"
 	"time"
 
 	bolt "go.etcd.io/bbolt"
@@ -108,3 +109,14 @@ func VerifHubOptions(h *Hub) VerifOptions {
 		Compat7: h.isBackwardCompatiblyEnabledWith(7),
 	}
 }
+
+// VerifHubTransport: the transport the hub was built with.
+func VerifHubTransport(h *Hub) Transport { return h.transport }
+
+// VerifBoltConfig: the parameters in effect in a Bolt transport.
+func VerifBoltConfig(t *BoltTransport) (path, bucket string, size uint64, cleanupFrequency float64) {
+	return t.db.Path(), t.bucketName, t.size, t.cleanupFrequency
+}
+
+// VerifSubDisconnected: has the subscriber's stream been ended (flag read atomically, no side effect).
+func VerifSubDisconnected(s *LocalSubscriber) bool { return atomic.LoadInt32(&s.disconnected) > 0 }
